@@ -295,6 +295,47 @@ struct RunnerS {
         }
     }
 
+    // lane groups: the K-tuples again, arranged so that groups of lanes agree - the whole vector equal, lanes below a split point k holding one tuple
+    // and the rest another (every k), every lane alone differing from an otherwise uniform vector, and one operand uniform while the other varies.
+    // A short cut taken when 'all' lanes are equal / small / uniform that looks at some of the lanes only shows here (seeds C01-b, C01-c, C15-c).
+    void phase3(const std::vector<S>& K) {
+        const unsigned W = vt.W;
+        if (W == 1 || !vt.lane_pass) return;
+        const std::size_t nk = K.size();
+        const std::size_t step = nk >= 8 ? nk / 8 : 1;
+        std::uint64_t total = nk;
+        if (vt.arity == 2) total = std::uint64_t(nk) * nk;
+        if (vt.arity == 3) total = std::uint64_t(nk) * 8 * 8;
+        for (std::uint64_t t = 0; t < total; ++t) {
+            S tu[2][3];
+            for (int w = 0; w < 2; ++w) {
+                const std::uint64_t x = w == 0 ? t : (t * 7 + 3) % total;  // the partner tuple
+                tu[w][0] = K[x % nk]; tu[w][1] = tu[w][0]; tu[w][2] = tu[w][0];
+                if (vt.arity == 2) tu[w][1] = K[x / nk];
+                if (vt.arity == 3) { std::uint64_t r = x / nk; tu[w][1] = K[((r % 8) * step) % nk]; tu[w][2] = K[((r / 8) * step) % nk]; }
+            }
+            cur = t;
+            // patterns 0..W-1: lanes below the split point hold the tuple, the others the partner (0: whole vector = partner ... W-1: one partner lane);
+            // patterns W..2W-1: only lane (pattern - W) holds the tuple; pattern 2W: whole vector = tuple;
+            // 2W+1: a varies over K, b and c uniform; 2W+2: a uniform, b (and c) vary
+            for (unsigned pat = 0; pat < 2 * W + 3; ++pat) {
+                for (unsigned i = 0; i < W; ++i) {
+                    int w;
+                    if (pat < W) w = i < pat ? 0 : 1;
+                    else if (pat < 2 * W) w = i == pat - W ? 0 : 1;
+                    else w = 0;
+                    B.a[i] = tu[w][0]; B.b[i] = tu[w][1]; B.c[i] = tu[w][2];
+                    if (pat == 2 * W + 1) B.a[i] = K[(t + i) % nk];
+                    if (pat == 2 * W + 2) { B.b[i] = K[(t + i) % nk]; B.c[i] = K[(t + 3 * i + 1) % nk]; }
+                }
+                vt.model_block(B, W);
+                cur_off = 0;
+                vt.impl_vec(B, 0);
+                compare_block(W, false, hcomb(0x9000 + pat, 0), "lane-groups");
+            }
+        }
+    }
+
     struct Job {
         RunnerS* r;
         const DomainS<S>* d;
@@ -302,7 +343,7 @@ struct RunnerS {
         const std::vector<S>* fills;
         void operator()() {
             r->phase1(*d);
-            if (K && !K->empty()) r->phase2(*K, *fills);
+            if (K && !K->empty()) { r->phase2(*K, *fills); r->phase3(*K); }
         }
     };
     struct ReplayJob {
